@@ -60,7 +60,8 @@ Inductive asm_case :=
 | COps (ops : list op) (bytes : list Z) (back : presult)
 | CTable (rows : list (Z * bool * string * Z * Z))
 | CShorts (rows : list (string * Z * Z))
-| CFx (ops : list op) (bytes : list Z) (analyzed : Z) (answers : list bool).  (* answers for fl = 0..63 *)
+| CFx (ops : list op) (bytes : list Z) (analyzed : Z) (answers : list bool)   (* answers for fl = 0..63 *)
+| CFxRaw (bytes : list Z) (answers : list bool).                              (* any byte string; [] = the scan panicked *)
 
 Definition table_row_eqb (a b : Z * bool * string * Z * Z) : bool :=
   match a, b with
@@ -92,6 +93,7 @@ Definition asm_mismatch (c : asm_case) : bool :=
   | CShorts rows => negb (list_eqb short_row_eqb rows (map (fun o => (op_short o, opcode_of o, arg_bytes o)) all_ops))
   | CFx ops bytes an answers =>
       negb ((an =? analyze ops) && list_eqb Bool.eqb answers (fx_answers_model bytes))
+  | CFxRaw bytes answers => negb (list_eqb Bool.eqb answers (fx_answers_model bytes))
   end.
 
 (* the specification fails on the implementation's observed behaviour *)
@@ -112,6 +114,15 @@ Definition asm_spec_fail (c : asm_case) : bool :=
       negb (list_eqb short_row_eqb rows (map (fun r => (r_short r, r_opcode r, r_args r)) spec_table))
   | CFx ops bytes an answers =>
       negb ((an =? effects_spec ops) && list_eqb Bool.eqb answers (fx_answers_spec ops))
+  | CFxRaw bytes answers =>
+      (* total on untrusted bytes; when the bytes parse, the answers are those of the parsed program *)
+      match answers with
+      | [] => true
+      | _ => match spec_parse (length bytes) bytes, from_bytes bytes with
+             | SOk _, Ok ops => negb (list_eqb Bool.eqb answers (fx_answers_spec ops))
+             | _, _ => false
+             end
+      end
   end.
 
 Definition asm_mismatches := collect asm_mismatch.
